@@ -39,65 +39,201 @@ func isChangeChan(t types.Type) bool {
 	return ok && n.Obj().Name() == "Change" && n.Obj().Pkg() != nil && n.Obj().Pkg().Path() == PkgNet
 }
 
-// lockHeld inspects the entry of fn: returns "W", "R" or "" depending on
-// whether the first call is mu.Lock/RLock on Watcher.mu (or terminator.mu)
-// and a matching deferred unlock follows in the entry block.
+// lockHeld reports whether fn runs entirely under the named mutex: "W" or "R"
+// when the first call of fn locks it (Lock/RLock on pkg.typ.field) and every
+// memory access and call of fn executes while it is held — either because the
+// matching unlock is deferred in the entry block, or because each explicit
+// unlock is followed by nothing but the return. "" otherwise.
 func lockHeld(fn *ssa.Function, pkg, typ, field string) string {
 	if len(fn.Blocks) == 0 {
 		return ""
 	}
+	onMu := func(cc *ssa.CallCommon) (string, bool) {
+		f := an.CalleeObj(cc)
+		if f == nil || len(cc.Args) == 0 {
+			return "", false
+		}
+		fa, ok := cc.Args[0].(*ssa.FieldAddr)
+		if !ok || !an.FieldAddrIs(fa, pkg, typ, field) {
+			return "", false
+		}
+		switch f.Name() {
+		case "Lock", "RLock", "Unlock", "RUnlock":
+			return f.Name(), true
+		}
+		return "", false
+	}
+	// the first call locks; a deferred unlock in the entry block settles it
 	mode := ""
+	deferred := false
 	for _, in := range fn.Blocks[0].Instrs {
 		switch x := in.(type) {
 		case *ssa.Call:
-			f := an.CalleeObj(&x.Call)
-			if f == nil {
-				return ""
-			}
+			op, ok := onMu(&x.Call)
 			if mode == "" {
-				if len(x.Call.Args) == 0 {
-					return ""
-				}
-				fa, ok := x.Call.Args[0].(*ssa.FieldAddr)
-				if !ok || !an.FieldAddrIs(fa, pkg, typ, field) {
-					return ""
-				}
-				switch f.Name() {
-				case "Lock":
+				switch {
+				case ok && op == "Lock":
 					mode = "W"
-				case "RLock":
+				case ok && op == "RLock":
 					mode = "R"
 				default:
 					return ""
 				}
 				continue
 			}
-			return "" // another call before the deferred unlock
 		case *ssa.Defer:
 			if mode == "" {
 				return ""
 			}
-			f := an.CalleeObj(&x.Call)
-			if f == nil || len(x.Call.Args) == 0 {
-				return ""
+			if op, ok := onMu(&x.Call); ok && ((mode == "W" && op == "Unlock") || (mode == "R" && op == "RUnlock")) {
+				deferred = true
 			}
-			fa, ok := x.Call.Args[0].(*ssa.FieldAddr)
-			if !ok || !an.FieldAddrIs(fa, pkg, typ, field) {
-				return ""
-			}
-			if (mode == "W" && f.Name() == "Unlock") || (mode == "R" && f.Name() == "RUnlock") {
-				return mode
-			}
-			return ""
 		case *ssa.FieldAddr, *ssa.UnOp, *ssa.Alloc, *ssa.Store, *ssa.MakeClosure:
 			continue
 		default:
-			if mode != "" {
+			if mode == "" {
 				return ""
 			}
 		}
+		if deferred {
+			break
+		}
 	}
-	return ""
+	if mode == "" {
+		return ""
+	}
+	if deferred {
+		return mode
+	}
+	// explicit unlocks: must-hold dataflow; nothing that touches memory or calls may run unlocked
+	in := map[*ssa.BasicBlock]string{}
+	out := map[*ssa.BasicBlock]string{}
+	const top = "?"
+	for _, b := range fn.Blocks {
+		in[b], out[b] = top, top
+	}
+	in[fn.Blocks[0]] = ""
+	okAll := true
+	transfer := func(b *ssa.BasicBlock, check bool) string {
+		st := in[b]
+		for _, ins := range b.Instrs {
+			if call, ok := ins.(*ssa.Call); ok {
+				if op, isMu := onMu(&call.Call); isMu {
+					switch op {
+					case "Lock":
+						st = "W"
+					case "RLock":
+						st = "R"
+					default:
+						st = ""
+					}
+					continue
+				}
+			}
+			if !check || st != "" {
+				continue
+			}
+			switch x := ins.(type) {
+			case *ssa.Return, *ssa.Jump, *ssa.If, *ssa.Phi, *ssa.FieldAddr, *ssa.DebugRef, *ssa.RunDefers, *ssa.BinOp, *ssa.Alloc:
+			case *ssa.UnOp:
+				if x.Op == token.MUL {
+					if _, isAlloc := x.X.(*ssa.Alloc); !isAlloc {
+						okAll = false // a load from shared memory without the lock
+					}
+				}
+			case *ssa.Store:
+				if _, isAlloc := x.Addr.(*ssa.Alloc); !isAlloc {
+					okAll = false
+				}
+			default:
+				okAll = false
+			}
+		}
+		return st
+	}
+	for changed := true; changed; {
+		changed = false
+		for _, b := range fn.Blocks {
+			if b != fn.Blocks[0] {
+				st := top
+				for _, p := range b.Preds {
+					switch {
+					case out[p] == top:
+					case st == top:
+						st = out[p]
+					case st != out[p]:
+						st = ""
+					}
+				}
+				if st != in[b] {
+					in[b] = st
+					changed = true
+				}
+			}
+			if in[b] == top {
+				continue
+			}
+			if o := transfer(b, false); o != out[b] {
+				out[b] = o
+				changed = true
+			}
+		}
+	}
+	// everything before the first Lock in the entry block was vetted above; check the rest
+	for _, b := range fn.Blocks {
+		if in[b] == top {
+			continue
+		}
+		if b == fn.Blocks[0] {
+			// skip the prefix up to and including the locking call
+			st := ""
+			locked := false
+			for _, ins := range b.Instrs {
+				if !locked {
+					if call, ok := ins.(*ssa.Call); ok {
+						if op, isMu := onMu(&call.Call); isMu && (op == "Lock" || op == "RLock") {
+							locked = true
+							st = mode
+						}
+					}
+					continue
+				}
+				if call, ok := ins.(*ssa.Call); ok {
+					if op, isMu := onMu(&call.Call); isMu {
+						if op == "Unlock" || op == "RUnlock" {
+							st = ""
+						} else {
+							st = mode
+						}
+						continue
+					}
+				}
+				if st == "" {
+					switch x := ins.(type) {
+					case *ssa.Return, *ssa.Jump, *ssa.If, *ssa.Phi, *ssa.FieldAddr, *ssa.DebugRef, *ssa.RunDefers, *ssa.BinOp, *ssa.Alloc:
+					case *ssa.UnOp:
+						if x.Op == token.MUL {
+							if _, isAlloc := x.X.(*ssa.Alloc); !isAlloc {
+								okAll = false
+							}
+						}
+					case *ssa.Store:
+						if _, isAlloc := x.Addr.(*ssa.Alloc); !isAlloc {
+							okAll = false
+						}
+					default:
+						okAll = false
+					}
+				}
+			}
+			continue
+		}
+		transfer(b, true)
+	}
+	if !okAll {
+		return ""
+	}
+	return mode
 }
 
 // isFreshObject reports whether v is (a pointer into) an object allocated in
